@@ -1,7 +1,7 @@
 """C13 — A crash at any point leaves an account that opens and is consistent."""
 import re
 from .. import cfg, idioms
-from ..idioms import cname, EVENTLOG
+from ..idioms import cname, EVENTLOG, last_seg
 
 
 def r1_append_is_one_write(ctx):
@@ -88,6 +88,82 @@ def r3_db_transactions(ctx):
         r.anchor_missing("database closures with several mutating statements (found %d)" % n)
 
 
+DB_MUT = {"insert_events", "delete_one", "delete_all_events", "insert_secret_by_row_id", "delete_all_secrets", "insert_folder_secrets",
+          "update_folder", "insert_folder", "delete_folder", "update_secret", "delete_secret", "insert_account_events", "insert_folder_events",
+          "insert_device_events", "insert_file_events"}
+DBLOG = "sos_database::event_log::DatabaseEventLog"
+
+
+def _tx_sites(ws, fn, memo, depth=0):
+    """Blocks of fn's code body that start a mutating database transaction:
+    a conn/conn_mut call whose closure executes mutating statements, or a call
+    to a method of the same log type that (transitively) has such a site."""
+    if fn.root in memo:
+        return memo[fn.root]
+    memo[fn.root] = []
+    body = cfg.code_body(ws, fn)
+    live = cfg.live_blocks(body)
+    mut_closures = set()
+    for b in fn.bodies:
+        if b.kind == "Closure" and any(cname(t) in DB_MUT and "entity" in (t.get("callee") or "") for _i, t in idioms.real_calls(b)):
+            mut_closures.add(b.path)
+    sites = []
+    clos_locals = {}
+    for i in live:
+        for st in body.blocks[i]["s"]:
+            if st.get("k") == "agg" and st.get("ak") in ("closure", "coroutine") and st.get("def") in mut_closures:
+                clos_locals[cfg.place_local(st["d"])] = st["def"]
+    for i, t in idioms.real_calls(body, live):
+        if any(cfg.op_local(a) in clos_locals for a in t["args"] if isinstance(a, str)):
+            sites.append((i, "transaction in %s" % cname(t)))
+            continue
+        callee = t.get("resolved") or t.get("callee") or ""
+        if DBLOG in callee and depth < 4:
+            g = ws.fns.get(callee) or next((f for f in ws.find_fns(re.escape(last_seg(callee)) + "$") if DBLOG in f.root and f.root != fn.root and last_seg(f.root) == last_seg(callee)), None)
+            if g is not None and g.root != fn.root and _tx_sites(ws, g, memo, depth + 1):
+                sites.append((i, "call to %s" % last_seg(g.root)))
+    memo[fn.root] = sites
+    return sites
+
+
+def r3b_one_transaction_per_operation(ctx):
+    ws = ctx.ws
+    r = ctx.rule("C13-R3b", "every event-log operation of the database backend changes the database in one transaction",
+                 floor=4, kind="K2 path rule over transaction sites (interprocedural summaries)")
+    fns = []
+    for imp in ws.impls_of(EVENTLOG):
+        for it in imp["items"]:
+            if DBLOG in it["path"] and it["path"] in ws.fns:
+                fns.append(ws.fns[it["path"]])
+    memo = {}
+    n = 0
+    for f in sorted(fns, key=lambda x: x.root):
+        body = cfg.code_body(ws, f)
+        sites = _tx_sites(ws, f, memo)
+        if not sites:
+            continue
+        n += 1
+        k = f.root + "|one-transaction"
+        bad = None
+        for (i, what) in sites:
+            after = cfg.reach_after(body, i)
+            for (j, what2) in sites:
+                if j in after:
+                    bad = (i, what, j, what2)
+                    break
+            if bad:
+                break
+        if bad:
+            r.violation(k, cfg.loc(body, bad[2]),
+                        "%s performs two separate database transactions on one path (%s, then %s): a crash between them leaves the log neither in its old nor in its new state" % (
+                            last_seg(f.root), bad[1], bad[3]), work=len(body.blocks),
+                        witness=cfg.path_lines(body, cfg.find_path(body, [bad[0]], [bad[2]])))
+        else:
+            r.ok(k, cfg.loc(body, sites[0][0]), "at most one mutating transaction on any path (%s)" % ", ".join(w for _i, w in sites), work=len(body.blocks))
+    if n < 4:
+        r.anchor_missing("database EventLog methods with a transaction site (found %d)" % n)
+
+
 def r4_snapshot_before_destruction(ctx):
     ws = ctx.ws
     r = ctx.rule("C13-R4", "replace_all_events on files takes a snapshot before erasing and removes it only when verified",
@@ -150,5 +226,6 @@ def run(ctx):
               "sqlite transactions are atomic")
     r1_append_is_one_write(ctx)
     r3_db_transactions(ctx)
+    r3b_one_transaction_per_operation(ctx)
     r4_snapshot_before_destruction(ctx)
     r5_vault_before_event(ctx)
